@@ -242,6 +242,12 @@ impl FailSafe {
         // response can complete.
         sessions.remove_pase(expire_sess_id);
 
+        if let Some(fab_idx) = removed_fabric {
+            // The fabric is gone and its index will be handed out again:
+            // no session established on it may outlive it
+            sessions.remove_for_fabric(fab_idx, expire_sess_id);
+        }
+
         self.state = State::Idle;
         self.breadcrumb = 0;
 
